@@ -401,7 +401,21 @@ impl Primitive {
                 return Ok(matches!(x, Primitive::Optional(None)))
             }
             (P::Vector(v1), P::Vector(v2)) => {
-                return Ok(v1.0.borrow()[..].eq(v2.0.borrow().as_slice()))
+                let (v1, v2) = (v1.0.borrow(), v2.0.borrow());
+
+                if v1.len() != v2.len() {
+                    return Ok(false);
+                }
+
+                // elements are equal when `==` says so: a present optional produced by a
+                // built-in (`index_of`, `remove`) equals the plain value it carries
+                for (x, y) in v1.iter().zip(v2.iter()) {
+                    if !x.equals(y).unwrap_or_else(|_| x == y) {
+                        return Ok(false);
+                    }
+                }
+
+                return Ok(true);
             }
             (P::Optional(maybe), yes) | (yes, P::Optional(maybe)) => {
                 if let Some(maybe_unwrapped) = maybe {
